@@ -21,6 +21,7 @@ META = {
 def run(s):
     K.suite_workload(s)
     K.fixtures_workload(s)
+    K.collision_cases(s)
     K.recreate_cases(s)
     K.large_cases(s, 24 if s.tier == 'quick' else 600, 'both')
     K.pair_histories(s)
@@ -57,9 +58,36 @@ def run(s):
     collection_reports(s, 60 if q else 3000)
     repeated_id_deletes(s)
     under_error_filter(s)
+    aligned_block_deletes(s)
     K.idless_cases(s)
     K.fuzz(s, 120 if q else 12000, K.kind_weights(1, 1, 0.3), steps=(5, 25),
            shape_weights=(0.6, 0.25, 0.12, 0.03), selfref=0.1, direct=0.3)
+
+
+def aligned_block_deletes(s):
+    """Deletes of 4-6 IDs whose first and last named elements stand exactly as far apart as the list is long,
+    while an ID in the middle is unknown, repeated or names an element outside the span: every ID is acted
+    upon or reported on its own, nothing in between is taken along."""
+    idx = 0
+    S = ['E1', 'E2', 'E3', 'E4', 'E5', 'E6', 'E7']
+    ro_txt = gen.grid_ro(S, 'none', pretty=False)
+    I = ['i%d' % k for k in range(7)]
+    iro_txt = B.ro_doc('RO', 1, [gen.simple_story('A', 1), gen.simple_story('B', 7, item_prefix='i')])
+    def lists(N):
+        return [[N[1], 'GONE', N[3], N[4]], [N[1], N[3], N[2], N[4]], [N[1], N[1], N[3], N[4]], [N[1], N[6], N[3], N[4]],
+                [N[1], N[2], 'GONE', N[4], N[5]], [N[0], 'GONE', 'GONE2', N[3]], [N[2], N[0], N[6], N[5]],
+                [N[1], N[2], N[3], N[4]], [N[4], N[3], N[2], N[1]], [N[1], 'GONE', N[3], N[4], N[5], N[6]]]
+    for kind, txt, N, kw0 in (('roStoryDelete', ro_txt, S, {}), ('EAStoryDelete', ro_txt, S, {}),
+                              ('roItemDelete', iro_txt, I, {'story_ref': 'B'}), ('EAItemDelete', iro_txt, I, {'story_ref': 'B'}),
+                              ('EAStoryMove', ro_txt, S, {'target': 'E7'}), ('EAItemMove', iro_txt, I, {'story_ref': 'B', 'target': 'i6'}),
+                              ('roItemMoveMultiple', iro_txt, I, {'story_ref': 'B', 'target': 'i6'})):
+        for ids in lists(N):
+            if kw0.get('target') in ids:
+                continue
+            idx += 1
+            if s.mine(idx):
+                K.run_case(s, txt, kind, dict(kw0, ids=ids), ctx={'aligned-block': True})
+    s.hist['aligned_block_cases'] = idx
 
 
 def under_error_filter(s):
